@@ -112,9 +112,14 @@ def conc_scenarios():
                                                              P(2): {'VCPU': 1}}, cgen=1),
         'PUT allocations K1 clear': reqs.put_alloc(K(1), {}, cgen=1),
         'DELETE allocations K1': reqs.del_alloc(K(1)),
+        # bumps the provider a two-provider allocation write visits second (its server-side
+        # retries are then all doomed: the write must end as an error, not as a success that
+        # moved no generation)
+        'PUT inventories P2': reqs.put_invs(P(2), 1, {'VCPU': {'total': 6}}),
     }
     names = list(o)
-    pairs = [(a, b) for a in ('rename P1', 're-parent P1 under P2') for b in names[2:]]
+    pairs = [(a, b) for a in ('rename P1', 're-parent P1 under P2') for b in names[2:-1]]
+    pairs += [('PUT inventories P2', 'PUT allocations K1 on P1+P2')]
     pairs += [('PUT inventories P1', 'PUT allocations K2 on P1'),
               ('PUT traits P1', 'PUT aggregates P1 @1.18'),
               ('PUT allocations K2 on P1', 'PUT allocations K1 on P1+P2'),
